@@ -406,13 +406,37 @@ End CM.
 Definition cm_fresh (nh nb mx sh : N) : cm := cm_make nh nb mx sh (nh * nb).
 
 Lemma cm_new_fresh nh nb mx sh :
-  nh <> 0 -> 3 <= nb -> nh * nb < zN Gen.GenCountMin.MAX_TABLE_ENTRIES ->
+  nh <> 0 -> 3 <= nb -> nh * nb < zN Gen.GenCountMin.MAX_TABLE_ENTRIES -> sh <> 0 ->
   cm_new nh nb mx sh = Ok (cm_fresh nh nb mx sh).
 Proof.
   intros. unfold cm_new, entries_for_config.
   replace (nh =? 0) with false by lia. replace (nb <? 3) with false by lia.
-  replace (_ <=? nh * nb) with false by lia. reflexivity.
+  replace (_ <=? nh * nb) with false by lia. cbn [obind]. replace (sh =? 0) with false by lia. reflexivity.
 Qed.
+
+(* outside the documented ranges the constructor panics *)
+Lemma cm_new_stuck nh nb mx sh :
+  nh = 0 \/ nb < 3 \/ zN Gen.GenCountMin.MAX_TABLE_ENTRIES <= nh * nb \/ sh = 0 -> cm_new nh nb mx sh = Stuck.
+Proof.
+  intros H. unfold cm_new, entries_for_config.
+  destruct (N.eqb_spec nh 0); [reflexivity|]. destruct (N.ltb_spec nb 3); [reflexivity|].
+  destruct (N.leb_spec (zN Gen.GenCountMin.MAX_TABLE_ENTRIES) (nh * nb)); [reflexivity|]. cbn [obind].
+  destruct (N.eqb_spec sh 0); [reflexivity|]. lia.
+Qed.
+
+(* the repaired decay c -> min(f c, c) is an admissible scaling as soon as the float part f is monotone
+   (g 0 = 0 and g c <= c hold by the clamp, for ANY f) *)
+Lemma decay_clamp_ok (f : N -> N) :
+  (forall a b, a <= b -> f a <= f b) -> sop_ok (SScale (decay_clamp f)).
+Proof.
+  intros Hm. unfold sop_ok, decay_clamp. repeat split.
+  - intros a b Hab. specialize (Hm a b Hab). lia.
+  - lia.
+  - intros c. lia.
+Qed.
+
+Lemma decay_clamp_le (f : N -> N) c : decay_clamp f c <= c.
+Proof. unfold decay_clamp. lia. Qed.
 
 Theorem stream_exact nh nb mx sh (bucket : N -> N -> N) :
   nh <> 0 -> 0 < nb -> (forall x r, bucket x r < nb) ->
